@@ -537,7 +537,9 @@ def verdict(case, r, rc):
         op = case["threads"][d.get("thread", 0)]["ops"][d.get("op", 0)]
         return ("transcript-differs:%s" % op.get("op"),
                 "round %s (%d threads): thread %s op %s (%s): concurrent transcript item %s = %s, sequential = %s"
-                % (case["id"], nthr, d.get("thread"), d.get("op"), op.get("op"), d.get("item"), d.get("concurrent"), d.get("sequential")))
+                % (case["id"], nthr, d.get("thread"), d.get("op"), op.get("op"), d.get("item"), d.get("concurrent"), d.get("sequential"))
+                + (" | the workloads run alone again AFTER the concurrent phase no longer reproduce their first sequential transcript either "
+                   "(state left behind): %s" % json.dumps(r["rediff"])[:300] if r.get("rediff") else ""))
     if r.get("rediff"):
         d = r["rediff"]
         op = case["threads"][d.get("thread", 0)]["ops"][d.get("op", 0)]
